@@ -163,4 +163,56 @@ def roundSig28 (n : Int) (d : Nat) : Int × Nat :=
   let mant' := if 2 * rem > d ∨ (2 * rem = d ∧ mant % 2 = 1) then mant + 1 else mant
   (if n < 0 then -(mant' : Int) else (mant' : Int), k)
 
+/-! ## the lexical space of xs:double (XSD 1.1 part 2 §3.3.5: optional sign, digits with an
+optional fraction or a fraction alone, optional exponent; `INF`, `+INF`, `-INF`, `NaN`; the
+whiteSpace facet is `collapse`) = what `helpers.get_double` accepts (`collapse_white_spaces`,
+`NUMERIC_INF_OR_NAN`, `Patterns.numeric_literal`) before it calls `float()` -/
+
+def isXmlWs (c : Char) : Bool := c == ' ' || c == '\t' || c == '\n' || c == '\r'
+
+def trimWs (l : List Char) : List Char := ((l.dropWhile isXmlWs).reverse.dropWhile isXmlWs).reverse
+
+def digitVal (c : Char) : Nat := c.toNat - '0'.toNat
+
+def natOfDigits (ds : List Char) : Nat := ds.foldl (fun acc c => acc * 10 + digitVal c) 0
+
+/-- the value of a valid xs:double literal, `none` for a string outside the lexical space -/
+def lexDouble (s : String) : Option D :=
+  let l := trimWs s.toList
+  if l == "INF".toList || l == "+INF".toList then some .pinf
+  else if l == "-INF".toList then some .ninf
+  else if l == "NaN".toList then some .nan
+  else
+    let (neg, r0) := match l with
+      | '-' :: r => (true, r)
+      | '+' :: r => (false, r)
+      | r => (false, r)
+    let ip := r0.takeWhile Char.isDigit
+    let r1 := r0.dropWhile Char.isDigit
+    let (dot, fp, r2) := match r1 with
+      | '.' :: r => (true, r.takeWhile Char.isDigit, r.dropWhile Char.isDigit)
+      | r => (false, [], r)
+    if ip.isEmpty && !(dot && !fp.isEmpty) then none
+    else
+      let ex : Option Int := match r2 with
+        | [] => some 0
+        | c :: r =>
+          if c == 'e' || c == 'E' then
+            let (eneg, ds) := match r with
+              | '-' :: r' => (true, r')
+              | '+' :: r' => (false, r')
+              | r' => (false, r')
+            if ds.isEmpty || !ds.all Char.isDigit then none
+            else some (if eneg then -(natOfDigits ds : Int) else (natOfDigits ds : Int))
+          else none
+      match ex with
+      | none => none
+      | some e =>
+        let mant := natOfDigits (ip ++ fp)
+        let sh : Int := e - (fp.length : Int)
+        if mant = 0 then some (if neg then .nzero else .fin 0 0)
+        else
+          let n : Int := if neg then -(mant : Int) else (mant : Int)
+          some (if sh ≥ 0 then rnd (n * 10 ^ sh.toNat) 1 else rnd n (10 ^ (-sh).toNat))
+
 end EPV.Seq
